@@ -331,3 +331,10 @@ func (s *MultilineReverseSuffixSearcher) IsMatch(haystack []byte) bool {
 	_, _, found := s.FindIndicesAt(haystack, 0)
 	return found
 }
+
+// IsMatchWithCache is IsMatch with the forward DFA cache provided by the caller
+// (the pooled SearchState of the engine; nil: the searcher's own pool).
+func (s *MultilineReverseSuffixSearcher) IsMatchWithCache(haystack []byte, fwdCache *lazy.DFACache) bool {
+	_, _, found := s.FindIndicesAtWithCaches(haystack, 0, fwdCache)
+	return found
+}
